@@ -138,6 +138,27 @@ def run(ctx):
             if any(abs(float(x) - float(y)) > 1e-9 * max(1.0, abs(float(x))) for x, y in zip(a, b)):
                 ctx.disagreement("impedance parameters differ: impl=%s model=%s" % ([float(x) for x in a], [float(y) for y in b]), d)
                 break
+    # ---------------- correspondence: merge_parallel_line parameters
+    mterms, mexp, mdesc = [], [], []
+    for k in range(ctx.n(40, 400)):
+        net = gen_net(rng)
+        i = int(rng.choice(list(net.line.index)))
+        net.line.at[i, "parallel"] = rng.choice([2, 3, 4])
+        net.line.at[i, "g_us_per_km"] = rng.choice([0.0, 4.0])
+        l = net.line.loc[i]
+        mterms.append("run_merge (Build_line %d %s %s %s %s %s %s %s)" % (i, q(l.r_ohm_per_km), q(l.x_ohm_per_km), q(l.c_nf_per_km),
+                                                                         q(l.g_us_per_km), q(l.length_km), q(l.parallel), q(20.0)))
+        work = copy.deepcopy(net)
+        tb.merge_parallel_line(work, i)
+        w = work.line.loc[i]
+        mexp.append([float(w.r_ohm_per_km), float(w.x_ohm_per_km), float(w.c_nf_per_km), float(w.g_us_per_km), float(w.parallel)])
+        mdesc.append({"line": {c: float(l[c]) for c in ("r_ohm_per_km", "x_ohm_per_km", "c_nf_per_km", "g_us_per_km", "length_km", "parallel")}})
+        ctx.case(mdesc[-1], nontrivial=True)
+        ctx.count("merge_corr")
+    for e, m_, d in zip(mexp, ctx.coq_eval("c23m", "Base.QN C23.Model", mterms, shard=40, timeout=280), mdesc):
+        ctx.corr_checked += 1
+        if any(abs(a - float(b)) > 1e-9 * max(1.0, abs(a)) for a, b in zip(e, m_)):
+            ctx.disagreement("merge_parallel_line parameters differ: impl=%s model=%s" % (e, [float(b) for b in m_]), d)
     # ---------------- oracle: power flow results before / after
     for k in range(ctx.n(45, 500)):
         net = gen_net(rng)
